@@ -42,6 +42,12 @@ func (s *Sim) StreamFn() func(ctx context.Context, p peer.ID, protos []protocol.
 		if dead {
 			return nil, errors.New("vsim: stream reset (dead peer)")
 		}
+		// opening a stream costs a round trip (protocol negotiation); a caller whose context ends meanwhile gets its error
+		if f := s.StreamOpenDelay; f != nil {
+			if err := sleepCtx(ctx, f(p)); err != nil {
+				return nil, err
+			}
+		}
 		var pid protocol.ID
 		if len(protos) > 0 {
 			pid = protos[0]
